@@ -32,11 +32,21 @@ def byte_col_to_utf16(line_text, byte_col):
 
 def gen_doc(rng):
     r = rng
-    kind = r.weighted([(5, "prog"), (3, "mutated"), (2, "nonascii_safe"), (1, "nonascii_code"), (1, "empty"), (1, "tests"), (2, "imports")])
+    kind = r.weighted([(5, "prog"), (3, "mutated"), (2, "nonascii_safe"), (1, "nonascii_code"), (1, "empty"), (1, "tests"), (2, "imports"), (2, "parser_edge")])
     defs, main = gen_prog(r.fork("p"), size=r.randint(3, 10), tag=f"d{r.randint(0, 9)}")
     text = defs + "\n" + "\n".join(main) + "\n"
     if kind == "empty":
         return r.choice(["", "\n", "   ", "// only a comment"]), kind
+    if kind == "parser_edge":
+        # unfinished or doubled constructs, at the end of the document or followed by more text
+        frag = r.choice(["(1,", "(1,,", "(1, 2,)", "[1,", "[1,,2]", "foo(", "foo(1,", "fun f(", "fun f(x: ) {}", "fun f(x,) {}",
+                         "\"unterminated", "{", "match x {", "match x { Some(", "let (a,", "let (a,,b) = 1", "Dict[", "Dict[\"a\" =>",
+                         "1 +", "if", "if x {", "else", "}}}", "struct S {", "struct S { x: }", "enum E {", "enum E { A(", "import",
+                         "import \"", "for x in", "for (a,", "while", "x.", "x::", "fun<T", "method m(this:", "test", "test t {",
+                         "let x: List<", "let x: = 1", "x = ", "x +=", "return", "not(", "a && ", "-", "1 . 2", "///", "/*"])
+        if r.chance(0.5):
+            return text + frag + ("\n" if r.chance(0.5) else ""), kind
+        return frag + "\n" + text, kind
     if kind == "tests":
         return text + "test doc_test { assert(1 == 1) }\n", kind
     if kind == "imports":
@@ -251,7 +261,7 @@ class C28:
             "import files of the scratch world (present, absent, broken, a directory, not UTF-8) and built-in modules. evaluations = child "
             "processes (server runs + `garden check --json` reference runs). distinct_nontrivial = distinct (history hash, "
             "delivery mode) among runs in which at least one document was open while requests were served")
-    expected_probes = ["delivery:whole", "delivery:chunked", "delivery:eof_at_byte", "delivery:malformed_frame", "delivery:bad_body", "doc:imports",
+    expected_probes = ["delivery:whole", "delivery:chunked", "delivery:eof_at_byte", "delivery:malformed_frame", "delivery:bad_body", "doc:imports", "doc:parser_edge",
                        "delivery:slow_consumer", "diagnostics_compared", "disk_fallback", "doc:nonascii_code",
                        "doc:mutated", "exit_after_shutdown", "exit_without_shutdown", "eof_without_exit"]
     real_components = ["the real garden binary: `garden lsp` (framing loop, handle_message, every handler, document store, "
